@@ -447,7 +447,7 @@ func c35Gen(g *Gen) {
 			case x < 89:
 				lines = append(lines, "reset")
 				sh.tab = nil
-			case x < 95:
+			case x < 93:
 				// a peer corrupts a few bytes of a slot: mostly in its last quarter (record-batch body,
 				// EOS), sometimes the low bytes of the first message-length field. (Arbitrary bytes in
 				// the flatbuffer metadata make arrow-go allocate gigabytes; see c35Huge.)
@@ -466,7 +466,7 @@ func c35Gen(g *Gen) {
 					}
 				}
 				lines = append(lines, fmt.Sprintf("poke %d %s", o, X(b)))
-			case x < 97:
+			case x < 95:
 				lines = append(lines, "kind "+c35GenCols(r, 3))
 			default:
 				// a complete stream copied so that it ends exactly at the end of the segment, then
@@ -487,6 +487,14 @@ func c35Gen(g *Gen) {
 				if len(st) > 0 && len(st) < dataSize {
 					o := size - int64(len(st))
 					lines = append(lines, fmt.Sprintf("poke %d %s", o, X(st)))
+					// the same exact region written with decorated numerals: "+N" is not a ParseUint
+					// numeral (offset) but is an Atoi numeral (length); leading zeros are fine in both
+					os, ls := strconv.FormatInt(o, 10), strconv.Itoa(len(st))
+					for _, v := range [][2]string{{"+" + os, ls}, {os, "+" + ls}, {"00" + os, "000" + ls}, {os, "-" + ls}, {"-" + os, ls}, {os + " ", ls}, {os, " " + ls}} {
+						if r.Chance(60) {
+							lines = append(lines, fmt.Sprintf("ptr %s 0 %s", cols, c35ShowMeta([]string{c35KOff, c35KLen}, []string{v[0], v[1]})))
+						}
+					}
 					for _, d := range [][2]int64{{0, 0}, {0, 1}, {-1, 1}, {0, -1}} {
 						if d != [2]int64{0, 0} && r.Bool() {
 							continue
